@@ -43,7 +43,7 @@ from .util_batch import (ALGEBRA, DIM, DT, GROUPS, LTYPES, MANIFOLD, Pools, all_
 
 META = {
     "rule": "lshape pairs: ALL 7225 ordered pairs of lshapes of rank<=3 with extents in {0,1,2,3} (2479 broadcastable, "
-            "4746 not) — broadcast_inputs on every pair every run; op sites: every pair with 3 of the 8 group ops (+ alg_add on every second pair) per run, group and ops "
+            "4746 not) — broadcast_inputs on every pair every run; op sites: a deterministic corpus (every site x every pair of 10 core lshapes, lshapes of rank 4-6 / extents 5-7) then every pair with 1 of the 8 group ops (+ alg_add on every fourth pair) per run, group and op "
             "chosen by (pair, op, seed) rotation plus all 36 sites on a core set of pairs (quick), the full cross product "
             "(thorough); unary / constructors: all 85 lshapes x 8 ltypes; handled functions: every name of the regenerated "
             "list x several call recipes x random lshape (rank 0..3, extents 0..3) x rotating ltype/dtype; regime: a fixed corner "
@@ -451,7 +451,7 @@ def mk_bcast(rng, site, sa, sb, k=None):
             "xview": rng.choice(VIEWS + [None]), "yview": rng.choice(VIEWS + [None])}
 
 
-def corpus_bcast():
+def corpus_bcast(full=True):
     """deterministic corner corpus: every op site x every broadcastable pair of the core lshapes, and pairs of
     lshapes beyond rank 3 / extent 3 with rotating sites"""
     rng = det_rng()
@@ -459,7 +459,8 @@ def corpus_bcast():
     core_pairs = [(a, b) for a in CORE for b in CORE if py_broadcast(a, b) is not None]
     for si, site in enumerate(SITE_KEYS):
         for pi, (sa, sb) in enumerate(core_pairs):
-            cases.append(mk_bcast(rng, site, sa, sb, k=si + pi))
+            if (si + pi) % 2 == 0 or full:      # quick: every second core pair per site (fixed, not seeded)
+                cases.append(mk_bcast(rng, site, sa, sb, k=si + pi))
     big_pairs = [(a, b) for a in BIG + CORE[:6] for b in BIG if py_broadcast(a, b) is not None]
     big_pairs += [(b, a) for a in CORE[:6] for b in BIG if py_broadcast(a, b) is not None]
     for pi, (sa, sb) in enumerate(big_pairs):
@@ -473,17 +474,17 @@ def corpus_bcast():
 
 def gen_bcast_cases(ctx: Ctx, good_pairs, bad_pairs):
     rng = ctx.rng
-    cases, _ = corpus_bcast()
+    cases, _ = corpus_bcast(full=not ctx.quick)
     ops_g = ["mul", "act3", "act4", "adj", "adjT", "jinvp", "retr", "add"]
     if ctx.quick:
-        # every broadcastable pair meets two of the eight group ops (ops and group rotating with pair, op and seed)
+        # every broadcastable pair meets one of the eight group ops (op and group rotating with pair and seed)
         for pi, (sa, sb) in enumerate(good_pairs):
             for oi, op in enumerate(ops_g):
                 g = GROUPS[(pi + oi + ctx.seed) % 4]
-                if (pi * 5 + oi + ctx.seed) % 8 >= 2:
+                if (pi * 5 + oi + ctx.seed) % 8 >= 1:
                     continue
                 cases.append(mk_bcast(rng, (g, op), sa, sb))
-            if (pi + ctx.seed) % 3 == 0:
+            if (pi + ctx.seed) % 4 == 0:
                 cases.append(mk_bcast(rng, (ALGEBRA[GROUPS[(pi + ctx.seed) % 4]], "alg_add"), sa, sb))
         for (sa, sb) in rng.sample(bad_pairs, 200):
             cases.append(mk_bcast(rng, rng.choice(SITE_KEYS), sa, sb))
@@ -566,7 +567,12 @@ def exec_handled(ctx: Ctx, case):
     lt = ltype_of(case["lt"])
     d = DIM[case["lt"]]
     ins = [t for t, _ in b["inputs"]]
-    if case.get("param") and b["post"] is None:
+    vbase = None
+    if case.get("xview") and isinstance(ins[0], P.LieTensor):
+        # the LieTensor argument is a non-contiguous view into a larger buffer (sentinel columns on both sides)
+        v, vbase = as_view(_plain(ins[0]).clone(), "slice")
+        ins[0] = _lie(v, case["lt"])
+    elif case.get("param") and b["post"] is None:
         ins[0] = P.Parameter(ins[0], requires_grad=False)
     before = [_plain(t).clone() for t in ins]
     ref_ins = [_plain(t).clone() for t in ins]
@@ -601,6 +607,9 @@ def exec_handled(ctx: Ctx, case):
         if not torch.equal(_plain(t), t0):
             ctx.fail(case, f"mutation: {name} changed its tensor argument #{k}")
             ok = False
+    if vbase is not None and not (bool((vbase[..., 0] == 9.0).all()) and bool((vbase[..., -1] == 9.0).all())):
+        ctx.fail(case, f"mutation: {name} on a LieTensor that is a view into a larger buffer wrote outside the view")
+        ok = False
     outs, refs = _flatten_result(r), _flatten_result(ref)
     if len(outs) != len(refs) or (isinstance(ref, (tuple, list)) != isinstance(r, (tuple, list))):
         ctx.fail(case, f"handled-result: {name} returned {len(outs)} tensors, the plain call {len(refs)}")
@@ -702,25 +711,25 @@ def compare_handled(ctx: Ctx, case, ex, reps):
 
 
 def gen_handled_cases(ctx: Ctx, names):
-    rng = ctx.rng
     todo = sorted(set(names) | set(PROPERTY_NAMED))
     cases = []
-    per = ctx.pick(10, 200)
-    for n in todo:
-        if n in NO_CALLABLE:
-            continue
-        if n not in RECIPES:
-            continue
-        if n == "cuda" and not torch.cuda.is_available():
-            ctx.count("handled.skipped.cuda")
-            continue
-        for k in range(per if n not in ("__getitem__", "__setitem__") else 3 * per):
-            c = UH.gen(rng, n)
-            c["kind"] = "handled"
-            c["lt"] = LTYPES[(len(cases) + ctx.seed) % 8] if rng.random() < 0.7 else rng.choice(LTYPES)
-            c["dtype"] = "float64" if rng.random() < 0.6 else "float32"
-            c["param"] = rng.random() < 0.12
-            cases.append(c)
+    # deterministic corpus first (the same recipes for every seed), then the seeded random recipes
+    for rng, per, det in ((det_rng(), 5, True), (ctx.rng, ctx.pick(8, 200), False)):
+        for n in todo:
+            if n in NO_CALLABLE or n not in RECIPES:
+                continue
+            if n == "cuda" and not torch.cuda.is_available():
+                if det:
+                    ctx.count("handled.skipped.cuda")
+                continue
+            for k in range(per if n not in ("__getitem__", "__setitem__") else 3 * per):
+                c = UH.gen(rng, n)
+                c["kind"] = "handled"
+                c["lt"] = LTYPES[(len(cases) + (0 if det else ctx.seed)) % 8] if rng.random() < 0.7 else rng.choice(LTYPES)
+                c["dtype"] = "float64" if rng.random() < 0.6 else "float32"
+                c["param"] = rng.random() < 0.12
+                c["xview"] = rng.random() < 0.3
+                cases.append(c)
     return cases
 
 
@@ -851,20 +860,31 @@ def check_unary(ctx: Ctx, case) -> bool:
 
 
 def stream_unary(ctx: Ctx):
+    def mk(rng, lt, op, apis, s, k=None):
+        a = sorted(apis)
+        return {"kind": "unary", "lt": lt, "op": op, "api": a[k % len(a)] if k is not None else rng.choice(a), "s": list(s),
+                "dtype": "float64" if rng.random() < 0.7 else "float32", "ox": rng.randrange(Pools.K),
+                "xview": rng.choice(VIEWS + [None])}
+    cases = []
+    rng = det_rng()
+    for li, lt in enumerate(LTYPES):            # corner corpus: every op on the core / beyond-range lshapes
+        for si, s in enumerate(CORE + BIG):
+            for oi, (op, apis, out) in enumerate(unary_ops(lt)):
+                cases.append(mk(rng, lt, op, apis, s, k=li + si + oi))
     rng = ctx.rng
-    n = 0
     for li, lt in enumerate(LTYPES):
         ops = unary_ops(lt)
         for si, s in enumerate(SHAPES):
-            chosen = ops if not ctx.quick else [ops[(si + li + k * 3 + ctx.seed) % len(ops)] for k in range(3)]
+            if ctx.quick and s in CORE:
+                continue
+            chosen = ops if not ctx.quick else [ops[(si + li + k * 3 + ctx.seed) % len(ops)] for k in range(2)]
             for op, apis, out in chosen:
-                case = {"kind": "unary", "lt": lt, "op": op, "api": rng.choice(sorted(apis)), "s": list(s),
-                        "dtype": "float64" if rng.random() < 0.7 else "float32", "ox": rng.randrange(Pools.K),
-                        "xview": rng.choice([None, None, "slice", "perm"])}
-                check_unary(ctx, case)
-                ctx.note_case(("unary", lt, op, s, case["dtype"]), numel(s) != 1 or s == ())
-                ctx.count(f"unary.{op}")
-                n += 1
+                cases.append(mk(rng, lt, op, apis, s))
+    for case in cases:
+        check_unary(ctx, case)
+        s = tuple(case["s"])
+        ctx.note_case(("unary", case["lt"], case["op"], s, case["dtype"]), numel(s) != 1 or s == ())
+        ctx.count(f"unary.{case['op']}")
 
 
 IDENTITY_ITEM = {"SO3": [0, 0, 0, 1.], "so3": [0, 0, 0.], "SE3": [0, 0, 0, 0, 0, 0, 1.], "se3": [0.] * 6,
@@ -955,9 +975,18 @@ def stream_ctor(ctx: Ctx):
     rng = ctx.rng
     whats = ["identity", "randn", "randn_tuple", "randn_grad", "identity_like", "randn_like", "ltype_ctor", "alias_ctor",
              "identity_like_kw", "randn_like_kw"]
+    for li, lt in enumerate(LTYPES):            # corner corpus: everything on the core / beyond-range lshapes, both dtypes
+        for si, s in enumerate(CORE + BIG):
+            for wi, w in enumerate(whats):
+                case = {"kind": "ctor", "lt": lt, "s": list(s), "dtype": ["float64", "float32"][(li + si + wi) % 2], "what": w}
+                check_ctor(ctx, case)
+                ctx.note_case(("ctor", lt, w, s), True)
+                ctx.count(f"ctor.{w}")
     for li, lt in enumerate(LTYPES):
         for si, s in enumerate(SHAPES):
-            ws = whats if not ctx.quick else [whats[(si + li + ctx.seed + 3 * k) % len(whats)] for k in range(3)]
+            ws = whats if not ctx.quick else [whats[(si + li + ctx.seed + 3 * k) % len(whats)] for k in range(2)]
+            if ctx.quick and s in CORE:
+                ws = []
             for w in ws:
                 case = {"kind": "ctor", "lt": lt, "s": list(s), "dtype": rng.choice(["float64", "float32"]), "what": w}
                 check_ctor(ctx, case)
@@ -1065,8 +1094,9 @@ def regime_corpus(lt, dtype):
     grp = lt in GROUPS
     base = lt if grp else [g for g, a in ALGEBRA.items() if a == lt][0]
     names, rows = [], []
-    trans = [[0.3, -1.2, 2.0], [0., 0., 0.], [5.0, 0.1, -0.4]]
-    scales = [1.0, 0.5, 2.0] if grp else [0.0, 1e-9, 0.3, -0.4]
+    # translations / scales include extreme-but-valid values (1e6, 1e-9 .. 1e9, |log s| = 20)
+    trans = [[0.3, -1.2, 2.0], [0., 0., 0.], [5.0, 0.1, -0.4], [1e6, -1e-6, 3e5], [1e-30, 0., -1e-12]]
+    scales = [1.0, 0.5, 2.0, 1e-9, 1e9] if grp else [0.0, 1e-9, 0.3, -0.4, 20.0, -20.0]
     k = 0
     for nm, q, phi in special_rotations():
         r = q if grp else phi
@@ -1090,16 +1120,24 @@ _SINGLE = {}
 
 
 def _close(a, b, dtype):
-    """batched value vs the same function on the single item: 64 eps (NaN == NaN)"""
-    a, b = _plain(a).detach(), _plain(b).detach()
+    """batched value vs the same function on the single item.  Element-wise relative: |a-b| <= 64 eps |b| per element,
+    plus an absolute floor of 64 eps times the smallest non-zero magnitude of the item (NaN == NaN, inf == inf) — no
+    factor taken from a large block (translation 1e6, scale 1e9) is allowed to loosen another block."""
+    a, b = _plain(a).detach().double(), _plain(b).detach().double()
     if a.shape != b.shape:
         return False
-    na, nb = torch.isnan(a), torch.isnan(b)
-    if not torch.equal(na, nb):
+    if not torch.equal(torch.isnan(a), torch.isnan(b)):
         return False
-    a, b = torch.nan_to_num(a, nan=0.0, posinf=1e300, neginf=-1e300), torch.nan_to_num(b, nan=0.0, posinf=1e300, neginf=-1e300)
+    fin = torch.isfinite(b)
+    if not torch.equal(a[~fin & ~torch.isnan(b)], b[~fin & ~torch.isnan(b)]):
+        return False
+    a, b = a[fin], b[fin]
+    if a.numel() == 0:
+        return True
     tol = 64 * common.EPS[dtype]
-    return bool(((a - b).abs() <= tol * (1 + b.abs().max() if b.numel() else 1)).all())
+    nz = b.abs()[b != 0]
+    floor = float(nz.min()) if nz.numel() else 0.0
+    return bool(((a - b).abs() <= tol * (b.abs() + min(floor, 1.0))).all())
 
 
 def check_regime(ctx: Ctx, case) -> bool:
@@ -1195,17 +1233,21 @@ def stream_regime(ctx: Ctx):
                 layouts.append((list(range(N)), (2, N // 2)))
             else:
                 layouts.append((list(range(N - 1)), (2, (N - 1) // 2)))
+            pairs2 = []
             for k in range(nsp):
-                layouts.append(([k, N - 1], (2,)))
-                layouts.append(([N - 2, k], (2,)))
+                pairs2.append(([k, N - 1], (2,)))
+                pairs2.append(([N - 2, k], (2,)))
             for _ in range(ctx.pick(3, 40)):
                 m = rng.randint(2, 6)
                 layouts.append(([rng.randrange(N) for _ in range(m)], (m,)))
             perm = list(range(N))
             rng.shuffle(perm)
             layouts.append((perm, (N,)))
-            for op, apis, out in unary_ops(lt):
-                for order, shape in (layouts if dtype == "float64" or not ctx.quick else layouts[:3]):
+            for oi, (op, apis, out) in enumerate(unary_ops(lt)):
+                # two-item batches (special, ordinary) in both orders: all of them (thorough) / every third, rotating with
+                # the op so that each special item is paired under every third op (quick; deterministic)
+                p2 = pairs2 if not ctx.quick else [pr for j, pr in enumerate(pairs2) if (j // 2 + oi) % 3 == 0]
+                for order, shape in ((layouts + p2) if dtype == "float64" or not ctx.quick else layouts[:3]):
                     case = {"kind": "regime", "lt": lt, "op": op, "api": rng.choice(sorted(apis)), "dtype": dtype,
                             "order": order, "shape": list(shape)}
                     check_regime(ctx, case)
@@ -1458,7 +1500,8 @@ def interp_body(toks, pos, log, orig):
     if t == "r":
         return pos + 1
     if t == "x":
-        raise BodyRaise()
+        # the kind of exception varies with the body (a context that swallows only some classes must show)
+        raise [BodyRaise, ValueError, KeyError, ZeroDivisionError][(len(toks) + pos) % 4]("body")
     if t.startswith("c"):
         m, n = torch_slots()[int(t[1:])]
         log.append(describe(getattr(m, n), orig))
@@ -1503,7 +1546,9 @@ def check_retain(ctx: Ctx, case):
         try:
             with P.retain_ltype():
                 interp_body(toks, 0, log, orig)
-        except BodyRaise:
+        except (BodyRaise, ValueError, KeyError, ZeroDivisionError) as e:
+            if "body" not in str(e):
+                raise
             outcome = "raised"
         except ImportError as e:
             if str(e) != "injected":
@@ -1558,6 +1603,9 @@ def stream_retain(ctx: Ctx):
         # an exception in the patch loop happens before the body: the model's log is empty there as well
         # the property is about the slots after exit; inside the body a call must find a wrapper — how deep the wrappers
         # nest under re-entry (the model says once: nested contexts write slot 3) is not part of the property
+        if outcome != m_out:
+            ctx.fail(c, f"retain-outcome: body {' '.join(c['body'])} (fault in patch loop at {c['fail_at']}): the `with retain_ltype()` "
+                        f"block ended `{outcome}`, the body's own outcome is `{m_out}` (exception swallowed or invented)")
         flat = lambda l: [re.sub(r"^w+", "w", t) for t in l]
         if slots != m_slots or outcome != m_out or flat(log) != flat(m_log):
             ctx.disagree("retain", c, f"body {' '.join(c['body'])} fail_at {c['fail_at']}: implementation slots {slots} outcome {outcome} "
@@ -1608,7 +1656,9 @@ def stream_retain(ctx: Ctx):
             ctx.fail(case, "jacrev: the exception raised by the differentiated function was swallowed")
         if seen and seen[0] != ("LieTensor", lt):
             ctx.fail(case, f"ltype: inside pp.func.jacrev the {lt} argument arrives as {seen[0]}")
-        if raised is False and fname in ("act", "aux", "nested"):
+        if raised is False and fname in ("act", "aux", "nested") and not isinstance(J[0] if fname == "aux" and isinstance(J, tuple) else J, torch.Tensor):
+            ctx.fail(case, f"jacrev: pp.func.jacrev ({fname}, {lt}) returned {type(J).__name__} instead of the Jacobian")
+        elif raised is False and fname in ("act", "aux", "nested"):
             Jt = J[0] if fname == "aux" else J
             # reference: torch.func.jacrev of the same action written on plain tensors through the public API
             ref = torch.func.jacrev(lambda t: _plain(P.LieTensor(t, ltype=ltype_of(lt)).Act(pts)))(pose.tensor())
@@ -1653,12 +1703,14 @@ def stream_purity(ctx: Ctx):
     ctx.count("purity.covered", len([n for n in pub if n in reg]))
     ctx.notes.append("public callables without synthesised arguments in C06's sweep (covered by the monitors of their own "
                      "properties): " + ", ".join(unc))
-    reps = ctx.pick(6, 80)
+    reps = ctx.pick(7, 80)
     rejected = {}
     for n in names:
         for k in range(reps):
-            case = {"kind": "purity", "fn": n, "variant": ctx.rng.randrange(1 << 12) if k else ctx.seed,
-                    "data_seed": ctx.rng.randrange(1 << 30)}
+            if k < 4:       # deterministic corpus: the same four argument sets per function for every seed
+                case = {"kind": "purity", "fn": n, "variant": [0, 1, 199, 1366][k], "data_seed": 1000 + 17 * k + sum(map(ord, n))}
+            else:
+                case = {"kind": "purity", "fn": n, "variant": ctx.rng.randrange(1 << 12), "data_seed": ctx.rng.randrange(1 << 30)}
             check_purity(ctx, case)
             if "_exc" in case:
                 rejected.setdefault(n, case["_exc"])
@@ -1680,22 +1732,323 @@ def stream_purity(ctx: Ctx):
         ctx.count("purity.inplace")
 
 
+# ============================================================================= histories: stale reads, object reuse, aliases
+
+def stream_persistent(ctx: Ctx):
+    """STALE READS: one LieTensor object updated in place (add_, copy_, item assignment, identity_) and read again
+    through every unary op, every binary site (fixed partner), lshape and the handled shape functions: each read must
+    equal the same read on a fresh clone bit for bit (shared helper util_lie.persistent_probe; deterministic)."""
+    from . import util_lie as UL
+    P = pp()
+
+    def reads_for(algebra):
+        def reads(gname):
+            lt = ALGEBRA[gname] if algebra else gname
+            d = DIM[lt]
+            R = {}
+            for op, apis, out in unary_ops(lt):
+                R[op] = (lambda fn: lambda o: fn(o))(apis[sorted(apis)[0]])
+            R["lshape"] = lambda o: torch.tensor(list(o.lshape) + [o.shape[-1]])
+            R["clone"] = lambda o: o.clone()
+            R["getitem"] = lambda o: o[1]
+            R["view"] = lambda o: o.view(-1, d)
+            R["cat"] = lambda o: torch.cat([o, o], 0)
+            R["index_select"] = lambda o: o.index_select(0, torch.tensor([2, 0]))
+            R["deepcopy(Parameter)"] = lambda o: copy.deepcopy(P.Parameter(o)).tensor()
+            for site in SITE_KEYS:
+                if site[0] != lt:
+                    continue
+                spec = SITES[site]
+
+                def mkread(site=site, spec=spec):
+                    def rd(o):
+                        dtn = "float64" if o.dtype == torch.float64 else "float32"
+                        y = wrap_second(site, "lie", POOLS.get(spec["py"], dtn)[:3].clone())
+                        return site_call(site, sorted(spec["apis"])[0], o, y)
+                    return rd
+                R[f"{site[1]}"] = mkread()
+            return R
+        return reads
+    with warnings.catch_warnings():
+        warnings.simplefilter("ignore")
+        UL.persistent_probe(ctx, reads_for(False))
+        UL.persistent_probe(ctx, reads_for(True), algebra=True)
+
+
+def _slots_ok(orig):
+    return all(getattr(m, n) is o for (m, n), o in zip(torch_slots(), orig))
+
+
+def _restore_slots(orig):
+    for (m, n), o in zip(torch_slots(), orig):
+        setattr(m, n, o)
+
+
+def stream_reuse(ctx: Ctx):
+    """OBJECT REUSE: the stateful objects of this property are a `pp.func.jacrev` wrapper, a function decorated with
+    `@retain_ltype()`, LieTensor / Parameter objects used as operands again and again, and the LieType singletons.
+    Each is used several times in one history with every per-call argument varied; every call is compared with the
+    same call on fresh objects."""
+    P = pp()
+    orig = originals()
+    state = {"raise": False, "seen": []}
+
+    def f(pose, pts):
+        state["seen"].append((type(pose).__name__, ltype_name(getattr(pose, "ltype", None))))
+        out = pose @ pts
+        if state["raise"]:
+            raise ValueError("injected")
+        return out
+    jf = P.func.jacrev(f)
+    hist = [("SE3", 1, "float64", False), ("SO3", 2, "float64", False), ("Sim3", 1, "float32", False), ("RxSO3", 1, "float64", True),
+            ("SE3", 2, "float32", False), ("SO3", 1, "float64", True), ("SO3", 1, "float64", False), ("SE3", 1, "float64", False)]
+    for step, (lt, n, dtype, rs) in enumerate(hist):
+        case = {"kind": "reuse", "what": "jacrev", "step": step, "history": [list(h) for h in hist[:step + 1]]}
+        pose = _lie(POOLS.get(lt, dtype)[step:step + n].clone(), lt)
+        pts = POOLS.get("p3", dtype)[step:step + n].clone()
+        state["raise"], state["seen"] = rs, []
+        ctx.note_case(("reuse", "jacrev", step), True)
+        ctx.count("reuse.jacrev")
+        try:
+            J = jf(pose, pts)
+            got = "ok"
+        except ValueError as e:
+            got = "raised" if str(e) == "injected" else f"ValueError {e}"
+        except Exception as e:
+            got = f"{type(e).__name__}: {str(e)[:80]}"
+        if got != ("raised" if rs else "ok"):
+            ctx.fail(case, f"reuse: call #{step} of ONE pp.func.jacrev wrapper ({lt}, batch {n}, {dtype}, raise={rs}) ended `{got}`")
+        if not _slots_ok(orig):
+            ctx.fail(case, f"retain: after call #{step} of one jacrev wrapper the torch attributes are "
+                           f"{[describe(getattr(m, n_), orig) for m, n_ in torch_slots()]}")
+            _restore_slots(orig)
+        if state["seen"] and state["seen"][0] != ("LieTensor", lt):
+            ctx.fail(case, f"ltype: call #{step} of one jacrev wrapper: the {lt} argument arrives as {state['seen'][0]}")
+        if got == "ok" and not rs:
+            state["raise"] = False
+            Jf = P.func.jacrev(f)(pose, pts)               # the same call through a fresh wrapper
+            if not isinstance(J, torch.Tensor) or not isinstance(Jf, torch.Tensor):
+                ctx.fail(case, f"reuse: call #{step} of a jacrev wrapper returned {type(J).__name__} instead of the Jacobian")
+            elif J.shape != Jf.shape or J.dtype != Jf.dtype or not torch.equal(J, Jf):
+                ctx.fail(case, f"reuse: call #{step} of a re-used jacrev wrapper ({lt}, batch {n}, {dtype}) differs from the same call "
+                               f"through a fresh wrapper (shape {tuple(J.shape)} vs {tuple(Jf.shape)})")
+    # decorator form of the context manager, called repeatedly, raising every other time
+
+    @P.retain_ltype()
+    def g(k):
+        inside = [describe(getattr(m, n_), orig) for m, n_ in torch_slots()]
+        if k % 2:
+            raise BodyRaise()
+        return inside
+    for k in range(6):
+        case = {"kind": "reuse", "what": "decorator", "step": k}
+        ctx.count("reuse.decorator")
+        try:
+            inside = g(k)
+            if not all(t.startswith("w") for t in inside):
+                ctx.disagree("retain", case, f"call #{k} of a function decorated with @retain_ltype(): inside, the slots are {inside}")
+        except BodyRaise:
+            pass
+        if not _slots_ok(orig):
+            ctx.fail(case, f"retain: after call #{k} of a function decorated with @retain_ltype() the torch attributes are "
+                           f"{[describe(getattr(m, n_), orig) for m, n_ in torch_slots()]}")
+            _restore_slots(orig)
+    # one LieTensor / Parameter object as operand of every site, partner shape and dtype-compatible variant varied per call
+    partner_shapes = [(3,), (), (2, 3), (1,), (3,), (0, 3)]
+    with warnings.catch_warnings():
+        warnings.simplefilter("ignore")
+        for lt in LTYPES:
+            for dtype in ("float64", "float32"):
+                for holder in (("LieTensor", "Parameter") if dtype == "float64" else ("LieTensor",)):
+                    X = _lie(POOLS.get(lt, dtype)[:3].clone(), lt)
+                    if holder == "Parameter":
+                        X = P.Parameter(X, requires_grad=False)
+                    x0 = _plain(X).clone()
+                    sites = [sk for sk in SITE_KEYS if sk[0] == lt]
+                    calls = [("u", op, apis) for op, apis, _ in unary_ops(lt)]
+                    for k, sh in enumerate(partner_shapes):
+                        for sk in sites:
+                            calls.append(("b", sk, sh, k))
+                    for ci, call in enumerate(calls):
+                        case = {"kind": "reuse", "what": "operand", "lt": lt, "dtype": dtype, "holder": holder, "call": ci}
+                        ctx.count("reuse.operand")
+                        try:
+                            if call[0] == "u":
+                                fn = call[2][sorted(call[2])[ci % len(call[2])]]
+                                a, b = fn(X), fn(_lie(x0.clone(), lt))
+                                label = call[1]
+                            else:
+                                sk, sh, k = call[1], call[2], call[3]
+                                spec = SITES[sk]
+                                yt, _ = make_tagged(POOLS.get(spec["py"], dtype), sh, k)
+                                api = sorted(spec["apis"])[(ci + k) % len(spec["apis"])]
+                                ycase = ["lie", "plain"][k % 2]
+                                a = site_call(sk, api, X, wrap_second(sk, ycase, yt.clone()))
+                                b = site_call(sk, api, _lie(x0.clone(), lt), wrap_second(sk, ycase, yt.clone()))
+                                label = f"{sk[1]} with partner lshape {sh}"
+                        except Exception as e:
+                            ctx.fail(case, f"raises: {lt}.{call[1]} on a re-used {holder} operand raises {type(e).__name__}: {str(e)[:80]}")
+                            continue
+                        if a.shape != b.shape or a.dtype != b.dtype or not torch.equal(torch.nan_to_num(_plain(a)), torch.nan_to_num(_plain(b))):
+                            ctx.fail(case, f"reuse: {lt}.{label} on a {holder} object that was already used in {ci} calls differs from the "
+                                           f"same call on a fresh object ({dtype})")
+                            break
+                        if not torch.equal(_plain(X), x0):
+                            ctx.fail(case, f"mutation: {lt}.{label} changed the re-used operand")
+                            break
+                    ctx.note_case(("reuse", "operand", lt, dtype, holder), True)
+
+
+def stream_alias(ctx: Ctx):
+    """VIEWS AND ALIASES: the same tensor passed as two arguments, partners that are views into the first operand's own
+    storage, and the in-place API on a view into a larger buffer (result == the same call on a contiguous clone, storage
+    outside the view untouched bit for bit)."""
+    P = pp()
+    with warnings.catch_warnings():
+        warnings.simplefilter("ignore")
+        for g in GROUPS:
+            a_lt = ALGEBRA[g]
+            d, m = DIM[g], MANIFOLD[g]
+            for dtype in ("float64", "float32"):
+                base = POOLS.get(g, dtype)[:4].clone()
+                abase = POOLS.get(a_lt, dtype)[:4].clone()
+                case0 = {"kind": "alias", "lt": g, "dtype": dtype}
+                X = _lie(base.clone(), g)
+
+                def same(label, got, want, case0=case0, X=X, base=base):
+                    ctx.count("alias.case")
+                    ctx.note_case(("alias", case0["lt"], case0["dtype"], label), True)
+                    ga, wa = _flatten_result(got), _flatten_result(want)
+                    bad = len(ga) != len(wa) or any(x.shape != y.shape or not torch.equal(_plain(x), _plain(y)) for x, y in zip(ga, wa))
+                    if bad:
+                        ctx.fail(case0 | {"what": label}, f"alias: {case0['lt']} {label}: result differs from the same call on independent copies ({case0['dtype']})")
+                    if not torch.equal(X.tensor(), base):
+                        ctx.fail(case0 | {"what": label}, f"mutation: {case0['lt']} {label} changed its argument")
+                        X.tensor().copy_(base)
+                try:
+                    Xc = lambda: _lie(base.clone(), g)
+                    same("X * X (same object twice)", X * X, Xc() * Xc())
+                    same("X @ X", X @ X, Xc() @ Xc())
+                    same("X.Inv() @ X", X.Inv() @ X, Xc().Inv() @ Xc())
+                    same("X * X[:1]  (partner = view starting at the same address)", X * X[:1], Xc() * Xc()[:1].clone())
+                    same("X[1:] * X[:-1]  (overlapping views)", X[1:] * X[:-1], Xc()[1:].clone() * Xc()[:-1].clone())
+                    same("X[1:].Inv() @ X[:-1]", X[1:].Inv() @ X[:-1], Xc()[1:].clone().Inv() @ Xc()[:-1].clone())
+                    same("torch.cat([X, X])", torch.cat([X, X]), torch.cat([Xc(), Xc()]))
+                    same("torch.stack((X, X), 1)", torch.stack((X, X), 1), torch.stack((Xc(), Xc()), 1))
+                    same("X.index_copy(0, idx, X[:2])", X.index_copy(0, torch.tensor([3, 1]), X[:2]), Xc().index_copy(0, torch.tensor([3, 1]), Xc()[:2]))
+                    pview = X.tensor()[..., :3]
+                    same("X.Act(view of X's storage)", X.Act(pview), Xc().Act(base[..., :3].clone()))
+                    aview = X.tensor()[..., :m]
+                    for fn in ("Adj", "AdjT", "Jinvp"):
+                        same(f"X.{fn}(view of X's storage)", getattr(X, fn)(aview), getattr(Xc(), fn)(base[..., :m].clone()))
+                    same("X.Retr(algebra LieTensor over a view of X's storage)", X.Retr(_lie(aview, a_lt)), Xc().Retr(_lie(base[..., :m].clone(), a_lt)))
+                    same("X + (view of X's storage)", X + aview, Xc() + base[..., :m].clone())
+                    same("X.add(X.tensor())  (wider `other`, same storage)", X.add(X.tensor()), Xc().add(base.clone()))
+                    E = _lie(base[:1].expand(4, d), g)          # stride-0 operand
+                    same("expanded (stride 0) operand * X", E * X, _lie(base[:1].repeat(4, 1), g) * Xc())
+                    same("expanded operand .Log()", E.Log(), _lie(base[:1].repeat(4, 1), g).Log())
+                    Y = Xc()
+                    Y.add_(Y.tensor()[..., :m])
+                    Yr = Xc()
+                    Yr.add_(base[..., :m].clone())
+                    same("Y.add_(view of Y's own storage)", Y, Yr)
+                except Exception as e:
+                    ctx.fail(case0, f"raises: alias probe on {g} raised {type(e).__name__}: {str(e)[:100]}")
+                # in-place API on a view into a larger buffer
+                Yo = _lie(POOLS.get(g, dtype)[5:9].clone(), g)
+                idx = torch.tensor([2, 0])
+                inplace = [("add_(a)", lambda V: V.add_(abase.clone())), ("pp.add_(V, a)", lambda V: P.add_(V, abase.clone())),
+                           ("copy_(Y)", lambda V: V.copy_(Yo)), ("V[1] = Y[0]", lambda V: V.__setitem__(1, Yo[0])),
+                           ("V[1:3] = Y[:2]", lambda V: V.__setitem__(slice(1, 3), Yo[:2])),
+                           ("index_copy_(0, idx, Y[:2])", lambda V: V.index_copy_(0, idx, Yo[:2])),
+                           ("index_put_((idx,), Y[:2])", lambda V: V.index_put_((idx,), Yo[:2])),
+                           ("cumprod_(0)", lambda V: V.cumprod_(0)), ("cummul_(0)", lambda V: V.cummul_(0))]
+                if g == "SO3":
+                    inplace.append(("identity_()", lambda V: V.identity_()))
+                for label, op in inplace:
+                    case = case0 | {"what": "inplace-view", "op": label}
+                    ctx.count("alias.inplace_view")
+                    ctx.note_case(("alias", g, dtype, label), True)
+                    buf = torch.full((6, d + 2), 9.0, dtype=DT[dtype])
+                    buf[1:-1, 1:-1] = base
+                    V = _lie(buf[1:-1, 1:-1], g)
+                    C = _lie(base.clone(), g)
+                    y0, a0 = Yo.tensor().clone(), abase.clone()
+                    try:
+                        op(V)
+                        op(C)
+                    except Exception as e:
+                        ctx.fail(case, f"raises: {g}.{label} on a view into a larger buffer raises {type(e).__name__}: {str(e)[:80]}")
+                        continue
+                    border = torch.cat([buf[0].flatten(), buf[-1].flatten(), buf[:, 0].flatten(), buf[:, -1].flatten()])
+                    if not bool((border == 9.0).all()):
+                        ctx.fail(case, f"alias: in-place {g}.{label} on a view into a larger buffer wrote outside the view")
+                    if not torch.equal(torch.nan_to_num(buf[1:-1, 1:-1]), torch.nan_to_num(C.tensor())):
+                        ctx.fail(case, f"alias: in-place {g}.{label} on a view did not update the underlying storage (the buffer the "
+                                       f"caller holds does not contain the result)")
+                    if not torch.equal(torch.nan_to_num(V.tensor()), torch.nan_to_num(C.tensor())):
+                        ctx.fail(case, f"alias: in-place {g}.{label} on a non-contiguous view gives another result than on a contiguous clone ({dtype})")
+                    if not torch.equal(Yo.tensor(), y0) or not torch.equal(abase, a0):
+                        ctx.fail(case, f"mutation: in-place {g}.{label} changed an argument other than `self`")
+
+
+def snapshot_globals():
+    """public state that no call may change: the LieType singletons' attributes and the runtime handled list"""
+    from pypose.lietensor import lietensor as L
+    snap = {"handled": list(L.HANDLED_FUNCTIONS)}
+    for n in LTYPES:
+        t = ltype_of(n)
+        snap[n] = (tuple(t.dimension), tuple(t.embedding), tuple(t.manifold), t.on_manifold, sorted(vars(t)), type(t).__name__)
+    snap["liegroup"] = [ltype_name(t) for t in L.liegroup]
+    snap["liealgebra"] = [ltype_name(t) for t in L.liealgebra]
+    return snap
+
+
 # ============================================================================= entry points (streams are added below)
+
+def guarded(ctx: Ctx, name, fn):
+    """any misbehaviour of the implementation that escapes a stream's own handling becomes a failing case of the
+    property (replayable by re-running the stream) — never an exception of the harness"""
+    try:
+        fn()
+    except common.InfraError:
+        raise
+    except Exception as e:
+        tb = traceback.format_exc()
+        frames = [ln.strip() for ln in tb.splitlines() if "/pypose/" in ln]
+        where = frames[-1][:120] if frames else [ln.strip() for ln in tb.splitlines() if ln.strip().startswith("File")][-1][:120]
+        # also when the exception surfaces in harness code: on the unchanged tree no stream raises (seeds 0-9, both
+        # tiers), so an exception here means the implementation returned something the oracle could not digest
+        # (None, wrong type, wrong arity) — a failing case, not an infrastructure error (exit 2 would hide it)
+        ctx.fail({"kind": "crash", "stream": name},
+                 f"crash-{name}: stream `{name}` stopped with {type(e).__name__}: {str(e)[:120]} ({where})")
+
 
 def run(ctx: Ctx):
     torch.set_grad_enabled(True)
     originals()                      # remember the pristine torch attributes before anything patches them
+    snap = snapshot_globals()
     names = stream_regen(ctx)
-    stream_tf(ctx, names)
-    stream_retain(ctx)
-    stream_handled(ctx, names)
-    stream_ctor(ctx)
-    stream_unary(ctx)
-    stream_regime(ctx)
-    stream_purity(ctx)
-    stream_bcast(ctx)
-    if not all(getattr(m, n) is o for (m, n), o in zip(torch_slots(), originals())):
+    # deterministic corner corpora first (identical for every seed) …
+    guarded(ctx, "persistent", lambda: stream_persistent(ctx))
+    guarded(ctx, "regime", lambda: stream_regime(ctx))
+    guarded(ctx, "alias", lambda: stream_alias(ctx))
+    guarded(ctx, "reuse", lambda: stream_reuse(ctx))
+    guarded(ctx, "tf", lambda: stream_tf(ctx, names))
+    guarded(ctx, "retain", lambda: stream_retain(ctx))
+    # … then the streams that start with their own deterministic corpus and continue with seeded cases
+    guarded(ctx, "handled", lambda: stream_handled(ctx, names))
+    guarded(ctx, "ctor", lambda: stream_ctor(ctx))
+    guarded(ctx, "unary", lambda: stream_unary(ctx))
+    guarded(ctx, "purity", lambda: stream_purity(ctx))
+    guarded(ctx, "bcast", lambda: stream_bcast(ctx))
+    if not _slots_ok(originals()):
         ctx.fail({"kind": "retain-final"}, "retain: at the end of the run the torch attributes are not the originals")
+    after = snapshot_globals()
+    for k in snap:
+        if snap[k] != after[k]:
+            ctx.fail({"kind": "globals", "what": k}, f"state: `{k}` changed during the run: {str(snap[k])[:120]} -> {str(after[k])[:120]} "
+                                                      f"(LieType singletons / HANDLED_FUNCTIONS are shared by every call)")
 
 
 def search(ctx: Ctx):
@@ -1708,7 +2061,8 @@ def search(ctx: Ctx):
         from pypose.lietensor import lietensor as L
         names = list(L.HANDLED_FUNCTIONS)
         for st in (lambda: stream_handled(ctx, names), lambda: stream_tf(ctx, names), lambda: stream_retain(ctx),
-                   lambda: stream_ctor(ctx), lambda: stream_unary(ctx), lambda: stream_regime(ctx), lambda: stream_purity(ctx)):
+                   lambda: stream_ctor(ctx), lambda: stream_unary(ctx), lambda: stream_regime(ctx), lambda: stream_purity(ctx),
+                   lambda: stream_persistent(ctx), lambda: stream_alias(ctx), lambda: stream_reuse(ctx)):
             st()
             if ctx.failures:
                 return
@@ -1737,6 +2091,14 @@ def replay(ctx: Ctx, case) -> bool:
             compare_handled(ctx, c, ex, ctx.driver.run(ex["lines"]))
     elif kind == "unary":
         check_unary(ctx, c)
+    elif kind in ("reuse", "alias", "crash", "globals") or c.get("stream") == "persistent":
+        from pypose.lietensor import lietensor as L
+        nm = list(L.HANDLED_FUNCTIONS)
+        which = {"reuse": "reuse", "alias": "alias", "globals": "reuse"}.get(kind, c.get("stream"))
+        {"reuse": lambda: stream_reuse(ctx), "alias": lambda: stream_alias(ctx), "persistent": lambda: stream_persistent(ctx),
+         "regime": lambda: stream_regime(ctx), "tf": lambda: stream_tf(ctx, nm), "retain": lambda: stream_retain(ctx),
+         "handled": lambda: stream_handled(ctx, nm), "ctor": lambda: stream_ctor(ctx), "unary": lambda: stream_unary(ctx),
+         "purity": lambda: stream_purity(ctx), "bcast": lambda: stream_bcast(ctx)}[which]()
     elif kind == "regime":
         check_regime(ctx, c)
     elif kind == "regime2":
